@@ -62,6 +62,9 @@ PROPS = {
     "C12": P("4 relation-world scenarios (target of two relation columns dies -> FreeTable map ranges; Reset then recycling of freed tables with different capacities, emptying, Shrink; target death + recycling; Shrink + recycling) executed twice: identity iteration order vs each of 24 permutation numbers applied to EVERY ranged map; digests (all issued handles, Filter0 and relation-query iteration order with targets, entity/archetype/table statistics) must be equal; SSA scan of package ecs listing every map range, goroutine, select, clock/random call and pointer-to-integer conversion: every map-range site must be executed by a scenario, any other source is reported",
              "same", "different OS processes / hash seeds are represented by arbitrary map iteration order (the only process-dependent input the scan finds); the Go runtime itself; scenarios beyond the four",
              ["map iteration order is the only source of run-to-run variation (established by the SSA scan, part of every run)"], scan=True),
+    "C13": P("two threads over a relation world, each: Query (walk with Get/Entity), second Query with Count/EntityAt/Close; scenarios: same Filter2 warmed / first use, registered, per-query relation targets (also after a Batch call left a backing array in the filter), registered + per-query targets, two different filters incl. an unsafe query; thread-modular lockset analysis over ALL accesses to pre-existing memory and maps (a conflicting pair with disjoint locksets is a race), results exact per thread, world unlocked after join; counterexamples replayed with real goroutines under go test -race (30 repetitions)",
+             "same", "more than two threads (races are pairwise and all threads run the same code; the 64-lock limit is C07); user code touching the same component memory from two queries; schedules are not enumerated: the second thread is analysed on the state the first one leaves",
+             ["mutexes are the only synchronisation primitive in the library (SSA scan: no go/select/atomic)", "a conflicting access pair with disjoint locksets is unordered in some schedule"]),
     "C10": P("every rejected call of the C01/C04 step harnesses (dead entity: never reused and recycled id; duplicate / already present / missing component; dead or recycled relation target; exchange of same component) must panic and leave model, INV and lock state unchanged",
              "same", "batch operations (lock state covered by C07); *Unchecked accessors; typed arities > 2"),
     "C05": P("registered Filter1/Filter2 with FULLY symbolic with/without masks and symbolic relation target (filter or per query) over both shapes: the cached walk/Count equals the model set (= uncached semantics); register/unregister bookkeeping",
